@@ -158,6 +158,29 @@ def check_misc(ck, prog):
           "worker_start(): the worker's own progress counters are reset in a different critical section (block(s) %s) than "
           "the one that adds the finished Block to coder->progress_in (block(s) %s): lzma_get_progress() can count the "
           "Block twice and report more than the true totals" % (zeros, adds), key="ERR:progress-transfer-atomic")
+    # ... and the reader takes ONE snapshot: get_progress() reads coder->progress_* and every worker's counters while it
+    # holds coder->mutex the whole time (a worker finishing between two separate critical sections is counted twice)
+    from sa import lock
+    gp = prog.fn("get_progress", FILE)
+    ck.saw_function(gp)
+    lg = lock.LockGraph(prog, gp, common.callgraph(prog), mtcommon.make_role(CFG))
+    reads = 0
+    loose = None
+    for node, blk, i, e, held in lg.node_sites():
+        for m_, w_, rmw in lock.accesses(e):
+            fk = (m_.get("rec"), m_["f"])
+            if fk in ((THR, "progress_in"), (THR, "progress_out"), (CODER, "progress_in"), (CODER, "progress_out")) and not w_:
+                reads += 1
+                if "M" not in held:
+                    loose = loose or m_
+    if reads < 4:
+        raise AnalysisBroken("get_progress: reads of the progress counters not found")
+    ck.ob("C08-ERR", "progress-snapshot", loose is None, common.where(gp, loose),
+          "get_progress: the coder totals and every worker's counters are read inside one critical section of coder->mutex"
+          if loose is None else
+          "get_progress(): %s is read without coder->mutex held: a worker that finishes its Block between this read and the "
+          "read of coder->progress_* has already moved the Block to the totals, so it is counted twice (progress exceeds "
+          "the true totals)" % ex.show(loose), key="ERR:progress-snapshot")
     # SYNC_FLUSH not enabled
     api = prog.fn("lzma_stream_encoder_mt", FILE)
     enabled = set()
@@ -207,3 +230,17 @@ def run(ck):
     ck.floor("C08-INITCONS", 6)
     from . import C10
     C10.check_sizekey(ck, prog, rule="C08-SIZEKEY", files={FILE}, floor=1)
+    # the output queue shared with the other threaded coder is reset by lzma_outq_init() on every (re)initialisation
+    from . import reinit as _re
+    ck.rule("C08-OUTQRESET", "lzma_outq_init() resets every lzma_outq member that the queue operations modify")
+    _re.check_reset_cover(ck, prog, "C08-OUTQRESET", [
+        ("lzma_outq_init", "outqueue.c", "lzma_outq", ("lzma_outq_end",),
+         {"head": "emptied by `while (outq->head != NULL) move_head_to_cache()`: the loop exit condition is the reset state",
+          "tail": "set to NULL by move_head_to_cache() when the last buffer leaves the queue",
+          "bufs_in_use": "decremented per buffer by move_head_to_cache() until the queue is empty",
+          "mem_in_use": "decremented per buffer by move_head_to_cache() until the queue is empty",
+          "cache": "cached buffers are kept across sessions on purpose (trimmed to the new limit)",
+          "bufs_allocated": "counts the cached buffers that are kept",
+          "mem_allocated": "counts the cached buffers that are kept"}),
+    ])
+    ck.floor("C08-OUTQRESET", 2)
